@@ -4,6 +4,7 @@ import XmppModel.Model.Caps
 
     ver <ids> <feats> <forms>            -> hex of the string written to the hash
     append <dst> <b64>                   -> hex of AppendHash's result, given the encoded sum
+    again <ids> <feats> <forms>          -> the caller's value after one call `/` hex of what a second call hashes
 
 Strings inside lists are `x<hex>` (so `x` is the empty string and `-` the empty list);
 identity = `cat:typ:lang:name`; form = `F` followed by `|`-joined fields; field =
@@ -48,8 +49,25 @@ def pInfo (ids feats forms : String) : Option Info := do
   let g ← mapM? pForm (splitList forms ';')
   pure ⟨i, f, g⟩
 
+def encStr (b : Bytes) : String := "x" ++ (if b.isEmpty then "" else hexEncode b)
+
+def joinOr (l : List String) (sep : String) : String :=
+  if l.isEmpty then "-" else sep.intercalate l
+
+/-- the encoding of the line protocol without field types, the three lists separated by `/` -/
+def encInfo (i : Info) : String :=
+  joinOr (i.ids.map fun d => ":".intercalate [encStr d.cat, encStr d.typ, encStr d.lang, encStr d.name]) "," ++ "/" ++
+  joinOr (i.feats.map encStr) "," ++ "/" ++
+  joinOr (i.forms.map fun F => "F" ++ "|".intercalate
+    (F.fields.map fun f => encStr f.var ++ "=" ++ ",".intercalate (f.values.map encStr))) ";"
+
 def handle (args : List String) : Option String :=
   match args with
+  | ["again", ids, feats, forms, _how] => do
+    -- the caller's value after one call, and what a second call on it hashes
+    let i ← pInfo ids feats forms
+    let j := i.after implInPlace
+    pure (encInfo j ++ "/" ++ hexEncode (verImpl j))
   | ["ver", ids, feats, forms, _how] => do
     let i ← pInfo ids feats forms
     pure (hexEncode (verImpl i))
